@@ -256,6 +256,21 @@ def _shared(ctx, rng, binary, ex):
             "twins": twins, "twin_keys": tk}
 
 
+def _overrides(ctx, rng, binary, ex):
+    """every line with several interacting overrides 8 times in one batch (concurrency 1 and 8) and in a second session:
+    all result folders of a line byte-identical"""
+    keys = list(B.OVERRIDES)
+    reps = 12 if ctx.thorough else 8
+    runs = []
+    for tag, c in (("ov_a_c1", 1), ("ov_b_c8", 8), ("ov_c_c3", 3)):
+        order = keys * reps
+        rng.shuffle(order)
+        e = B.run_batch(binary, ex, tag, order, B.OVERRIDES, c, rng.choice(GMPS))
+        runs.append((e, [B.folder_digest(os.path.join(e.root, "l%d" % i)) for i in range(len(order))]))
+        shutil.rmtree(e.root, ignore_errors=True)
+    return runs
+
+
 def _fout(ctx):
     vh = ctx.harness()
     d = os.path.join(ctx.work, "fout"); os.makedirs(d, exist_ok=True)
@@ -289,6 +304,7 @@ def _run(ctx):
         shutil.rmtree(os.path.join(ex, "solo_" + k), ignore_errors=True)
     _cache.update(rounds=rounds, pool=pool, ex=ex, reuse=_reuse(ctx, rng, binary, ex), fout=_fout(ctx),
                   solos=solos, solodig=solodig, shared=_shared(ctx, rng, binary, ex),
+                  overrides=_overrides(ctx, rng, binary, ex),
                   ik=B.run_interp_groups(binary, ex, rng, concs=(1, 3, 8, 16) if ctx.thorough else (1, 3)))
     return _cache
 
@@ -389,6 +405,11 @@ def correspond(ctx):
         for x in execs:
             if x.died():
                 c.mismatches.append({"kind": "execution", "tag": x.tag, "what": "process did not finish normally", "rc": x.rc, "stderr": x.stderr[-600:]})
+    for e, digs in r["overrides"]:
+        c.cases += 1; c.nontrivial += 1
+        if e.died():
+            c.mismatches.append({"kind": "execution", "tag": e.tag, "what": "process did not finish normally", "rc": e.rc, "stderr": e.stderr[-600:]})
+    c.dist["override_lines"] = len(B.OVERRIDES); c.dist["override_evaluations_per_line"] = sum(len(e.contents) for e, _ in r["overrides"]) // max(1, len(B.OVERRIDES))
     iks, ikr = r["ik"]
     c.cases += len(iks) + len(ikr); c.nontrivial += len(iks) + len(ikr)
     c.dist["interpretation_key_lines"] = len(iks); c.dist["interpretation_key_group_runs"] = len(ikr)
@@ -473,6 +494,26 @@ def oracle(ctx, search):
                                   replay="cd <copy of /repo/examples> (+ weather/odd of lib/props/batchlib.py make_odd_weather); batch A = the single line `%s resultfolder=A/l0`; "
                                          "batch B = " % pool[k] + " || ".join("%s resultfolder=B/l%d" % (pool[x], j) for j, x in enumerate(r0.contents)) +
                                          " ; hermes2go -module batch -concurrent 1 -batch <file>; compare A/l0 with B/l%d" % i))
+    # several interacting overrides on one line: every evaluation of the line gives the same files
+    first = {}
+    for e, digs in r["overrides"]:
+        if e.died() or e.count != 0:
+            fails.append(Fail(key="overrides:%s" % ("died" if e.died() else "errors"), what="batch of lines with several overrides did not finish cleanly",
+                              rc=e.rc, summary=e.summary, stderr=e.stderr[-500:], lines=[B.OVERRIDES[k] for k in B.OVERRIDES]))
+            continue
+        for i, k in enumerate(e.contents):
+            compared += 1
+            if k not in first:
+                first[k] = (digs[i], e.tag, i)
+            elif digs[i] != first[k][0]:
+                d0 = first[k][0]
+                diff = sorted(f for f in set(digs[i]) | set(d0) if digs[i].get(f) != d0.get(f))
+                fails.append(Fail(key="override-order:%s:%s" % (k, diff[0][:1] if diff else "?"),
+                                  what="the same batch line (several interacting configuration overrides on one line) gives different result files "
+                                       "from one evaluation to the next (same session or another session)",
+                                  line=B.OVERRIDES[k], files=diff[:6], first_seen="%s line %d" % first[k][1:], differs="%s line %d" % (e.tag, i),
+                                  replay="cd <copy of /repo/examples>; batch file with the line `%s resultfolder=O/l<i>` 16 times (i = 0..15); "
+                                         "hermes2go -module batch -concurrent 1 -batch <file>; compare O/l0 .. O/l15 byte for byte" % B.OVERRIDES[k]))
     # lines sharing input files and ids, differing in one interpretation key: each equal to its solo run
     fails += B.interp_fails(Fail, *r["ik"])
     compared += sum(len(e.contents) for e, _ in r["ik"][1])
